@@ -13,6 +13,7 @@ import (
 	"flag"
 	"fmt"
 	"os"
+	"runtime/debug"
 	"sort"
 	"strings"
 )
@@ -178,6 +179,9 @@ func Guard(f func() string) (res string) {
 	defer func() {
 		if e := recover(); e != nil {
 			res = "panic"
+			if os.Getenv("VERIF_DEBUG") != "" {
+				fmt.Fprintf(os.Stderr, "vh.Guard recovered: %v\n%s\n", e, debug.Stack())
+			}
 		}
 	}()
 	return f()
